@@ -208,13 +208,18 @@ theorem respond_projOp (s : CState) (r : Req) (hne : (respond s r).resp ≠ .err
     simp only [respond, reqOp] at hne ⊢
     rw [tryRun_ok_labels _ _ _ hne]
     refine noOp_append (noOp_append rfl ?_) rfl
-    split <;> rfl
+    split
+    · rfl
+    · split <;> rfl
+  case bgstart =>
+    simp only [respond, reqOp] at hne ⊢
+    rw [tryRun_ok_labels _ _ _ hne]; rfl
   case stopcall id =>
     simp only [respond, reqOp] at hne ⊢
     obtain ⟨a, ha, h1⟩ := firstRun_ok_labels _ _ hne
     rw [h1]
     simp only [List.mem_cons, List.not_mem_nil, or_false] at ha
-    rcases ha with rfl | rfl | rfl <;> rfl
+    rcases ha with rfl | rfl | rfl | rfl <;> rfl
   case stopwait id =>
     simp only [respond, reqOp] at hne ⊢
     obtain ⟨a, ha, h1⟩ := firstRun_ok_labels _ _ hne
